@@ -11,6 +11,7 @@ import GherkinVerif.Gen.ParserTable
 import GherkinVerif.Gen.Dialects
 import GherkinVerif.Gen.Grammar
 import GherkinVerif.Spec.Grammar
+import GherkinVerif.Spec.PureParse
 import Driver.GenAst
 open GV
 
@@ -65,6 +66,15 @@ def handle (op : String) (as : List (List Nat)) : J :=
     | none => .obj [("crash", .str (lit "no such default dialect"))]
     | some μ =>
       let (o, ctx) := parseWith D T (flag as 0) μ (num as 2) (arg as 3)
+      outcomeJ o ctx [("builds", .arr (ctx.builds.map fun t => .str (formatToken t))),
+                      ("buildLines", .arr (ctx.builds.map fun t => .num t.lineNo)),
+                      ("reads", .arr (ctx.reads.map J.num)), ("unexpected", .arr (ctx.unexpected.map J.num))]
+  | "parsepure" =>
+    -- stop | default dialect | ids | src : the queue-free parse (Spec/PureParse.lean), same reply shape as `parse`
+    match MState.init D (arg as 1) with
+    | none => .obj [("crash", .str (lit "no such default dialect"))]
+    | some μ =>
+      let (o, ctx) := Spec.parseWithPure D T (flag as 0) μ (num as 2) (arg as 3)
       outcomeJ o ctx [("builds", .arr (ctx.builds.map fun t => .str (formatToken t))),
                       ("buildLines", .arr (ctx.builds.map fun t => .num t.lineNo)),
                       ("reads", .arr (ctx.reads.map J.num)), ("unexpected", .arr (ctx.unexpected.map J.num))]
